@@ -140,6 +140,7 @@ func (mb *otMapBuilder) compile(m *otMap, key otShapePlanKey) {
 
 	gsub, gpos := mb.tables.GSUB, mb.tables.GPOS
 	tables := [2]*font.Layout{&gsub.Layout, &gpos.Layout}
+	lookupCounts := [2]int{len(gsub.Lookups), len(gpos.Lookups)}
 
 	m.chosenScript = mb.chosenScript
 	m.foundScript = mb.foundScript
@@ -260,13 +261,13 @@ func (mb *otMapBuilder) compile(m *otMap, key otShapePlanKey) {
 			if requiredFeatureIndex[tableIndex] != NoFeatureIndex &&
 				requiredFeatureStage[tableIndex] == stage {
 				const emptyTag = 0x20202020 // ("    ")
-				m.addLookups(table, tableIndex, requiredFeatureIndex[tableIndex],
+				m.addLookups(table, lookupCounts[tableIndex], tableIndex, requiredFeatureIndex[tableIndex],
 					key[tableIndex], globalBitMask, true, true, false, false, emptyTag)
 			}
 
 			for _, feat := range m.features {
 				if feat.stage[tableIndex] == stage {
-					m.addLookups(table, tableIndex,
+					m.addLookups(table, lookupCounts[tableIndex], tableIndex,
 						feat.index[tableIndex],
 						key[tableIndex],
 						feat.mask,
@@ -436,11 +437,14 @@ func (m *otMap) getStageLookups(tableIndex, stage int) []lookupMap {
 	return m.lookups[tableIndex][start:end]
 }
 
-func (m *otMap) addLookups(table *font.Layout, tableIndex int, featureIndex uint16, variationsIndex int,
+func (m *otMap) addLookups(table *font.Layout, tableLookupCount, tableIndex int, featureIndex uint16, variationsIndex int,
 	mask GlyphMask, autoZwnj, autoZwj, random, perSyllable bool, featureTag ot.Tag,
 ) {
 	lookupIndices := getFeatureLookupsWithVar(table, featureIndex, variationsIndex)
 	for _, lookupInd := range lookupIndices {
+		if int(lookupInd) >= tableLookupCount {
+			continue
+		}
 		lookup := lookupMap{
 			mask:        mask,
 			index:       lookupInd,
